@@ -382,6 +382,8 @@ def r6(ctx):
 
 
 def run(ctx):
+    from . import C04
+    C04.r2(ctx)   # a port comes back when its host crashes: the crash cancels every task of the host, whether or not its main future is still running
     r6(ctx)
     r5(ctx)
     r1(ctx)
